@@ -4,8 +4,14 @@
 #include <cstdint>
 #include <string>
 extern void vh_tr(int in, bool invoke, const char* name, const void* ptr, void* state);
+// CALLS_ONLY_IN / CALLS_ONLY_OUT: a client that defines just ONE of the two hooks (commands `treeni` / `treeno`): the notifications of
+// that hook are the same, for invocations and for callbacks
+#ifndef CALLS_ONLY_OUT
 #define RLBOX_TRANSITION_ACTION_IN(kind, name, ptr, state) ::vh_tr(1, (kind) == ::rlbox::rlbox_transition::INVOKE, name, ptr, state)
+#endif
+#ifndef CALLS_ONLY_IN
 #define RLBOX_TRANSITION_ACTION_OUT(kind, name, ptr, state) ::vh_tr(0, (kind) == ::rlbox::rlbox_transition::INVOKE, name, ptr, state)
+#endif
 #ifndef CALLS_NO_TIMES   // a build with the two hooks only (command `treenh`): hooks must not depend on the timing option
 #define RLBOX_MEASURE_TRANSITION_TIMES
 #endif
@@ -203,6 +209,10 @@ static tainted<long*, SbxA> cbP(Sb& s, tainted<long, SbxA>)
   return p;
 }
 
+#ifdef CALLS_DYLIB
+extern "C" __attribute__((visibility("default"))) int vh_only_in_1() { return 999; }    // the application's own function of that name
+#endif
+
 int main()
 {
   fill_many(std::make_index_sequence<NMANY>());
@@ -234,6 +244,22 @@ int main()
         }
         return out;
       });
+#else
+      return "na";
+#endif
+    }
+    if (t[0] == "dymiss" && t.size() == 1) {
+      // a name that only library 1 exports, while the process itself (this executable) exports a function of the same name:
+      // instance 0 (library 1) runs ITS function, instance 1 (library 2) must abort with "Symbol not found"
+#ifdef CALLS_DYLIB
+      std::string out = "ok";
+      for (int i = 0; i < 2; i++) {
+        out += " " + guarded([&]() -> std::string {
+          auto r = g_sb[i].INTERNAL_invoke_with_func_ptr<int()>("vh_only_in_1", g_sb[i].lookup_symbol("vh_only_in_1"));
+          return std::to_string(r.UNSAFE_unverified());
+        });
+      }
+      return out;
 #else
       return "na";
 #endif
@@ -282,7 +308,7 @@ int main()
 #endif
       return r;
     }
-    if (t[0] != "tree" && t[0] != "treen" && t[0] != "treenh") return "badop";
+    if (t[0] != "tree" && t[0] != "treen" && t[0] != "treenh" && t[0] != "treeni" && t[0] != "treeno") return "badop";
     g_tok.assign(t.begin() + 1, t.end()); g_pos = 0; g_log.clear(); g_nep = 0; g_cur_sb = 9;
     using Owner = rlbox::sandbox_callback<long (*)(long), SbxA>;
     std::vector<Owner> owners(6);
